@@ -29,7 +29,7 @@ def gen_recipe(rng):
         if rng.random() < 0.35:
             text = '=' + text
         cells.append([s, col, row, text])
-    return {'nsheets': nsheets, 'cells': cells, 'safety': rng.random() < 0.75, 'chart_at': rng.choice([None, None, None, 0, 1]), 'array': rng.random() < 0.2}
+    return {'nsheets': nsheets, 'cells': cells, 'safety': rng.random() < 0.75, 'chart_at': rng.choice([None, None, None, 0, 1]), 'array': rng.random() < 0.2, 'entry': rng.random() < 0.25}
 
 
 def make_case(rc, k=[0]):
@@ -58,6 +58,8 @@ def make_case(rc, k=[0]):
     path = os.path.join(DIR, 'w%d_%d.xlsx' % (os.getpid(), k[0] % 4))
     wb.save(path)
     pr = I.Parser().set_excel_file_path(path)
+    if rc.get('entry'):
+        pr.set_entrypoint_cell(I.Cell(0, 40, 40))          # a blank cell far away: nothing Python-like is among its precedents
     if not rc['safety']:
         pr.disable_safety_check()
     try:
@@ -81,6 +83,7 @@ def corpus():
     rs = [{'nsheets': 2, 'cells': [[0, 2, 3, 'eval(1)'], [1, 3, 5, 'os.system(1)'], [0, 1, 1, 'SUM(A1)']], 'safety': True},
           {'nsheets': 1, 'cells': [[0, 2, 3, 'quit()']], 'safety': True}, {'nsheets': 1, 'cells': [[0, 2, 3, '=os.getcwd()']], 'safety': True},
           {'nsheets': 1, 'cells': [[0, 2, 3, 'eval(1)']], 'safety': False}, {'nsheets': 1, 'cells': [[0, 27, 11, 'SUM(1)'], [0, 1, 2, 'x']], 'safety': True}]
+    rs.append({'nsheets': 2, 'safety': True, 'entry': True, 'cells': [[0, 2, 3, 'eval(1)'], [1, 3, 5, 'os.system(1)'], [0, 1, 1, 'five']]})
     rs.append({'nsheets': 1, 'safety': True, 'array': True, 'cells': [[0, 1, 1, '=eval(1)'], [0, 2, 2, '=SUM(1,2)']]})           # array formulas (fixed by 610ac1e)
     rs.append({'nsheets': 3, 'safety': True, 'cells': [[i % 3, 1 + i % 4, 1 + i // 3, 'eval(%d)' % i] for i in range(14)]})       # 14 Python-like cells on 3 sheets
     rs += [x['witness'] for x in C.known_findings()['findings'] if x['property'] == 'C19']
